@@ -2,6 +2,7 @@
 //! for validation against the TLA+ specifications in /verif/spec.
 
 mod common;
+mod corrupt;
 mod crash;
 mod fault;
 mod filterfmt;
@@ -259,6 +260,63 @@ fn cmd_crash(m: &HashMap<String, String>) -> i32 {
     0
 }
 
+fn cmd_corrupt(m: &HashMap<String, String>) -> i32 {
+    let out = PathBuf::from(m.get("out").cloned().unwrap_or_else(|| "out/corrupt".into()));
+    std::fs::create_dir_all(&out).unwrap();
+    let seed0: u64 = arg(m, "seed", 1);
+    let runs: u64 = arg(m, "runs", 1);
+    let mut results = vec![];
+    for (idx, seed) in (seed0..seed0 + runs).enumerate() {
+        let mut cfg = hist_cfg_for(seed, m);
+        cfg.max_snaps = 0;
+        cfg.max_iters = 0;
+        cfg.nops = arg(m, "nops", 25);
+        cfg.nkeys = cfg.nkeys.min(6);
+        cfg.big_values = false;
+        let mut rng = StdRng::seed_from_u64(seed ^ 0xabcdef);
+        let u = Arc::new(if cfg.adversarial_keys {
+            Universe::random(&mut rng, cfg.nkeys)
+        } else {
+            Universe::plain(cfg.nkeys)
+        });
+        let wd = Watchdog::start(
+            Duration::from_secs(arg(m, "deadline", 120)),
+            Box::new(move |what| {
+                eprintln!("hang in main corrupt workload: {}", what);
+                std::process::exit(4);
+            }),
+        );
+        let (mut lines, outcome, stats) = corrupt::run_corrupt(
+            &cfg,
+            &u,
+            &wd,
+            idx as u64 + 1,
+            arg(m, "max-probes", 3000),
+            arg(m, "threads", 2),
+        );
+        wd.stop();
+        lines.push(json!({"e": "End", "i": 0, "t": "main"}));
+        let path = out.join(format!("trace_{:04}.ndjson", idx));
+        trace::write_ndjson(&path, &lines).unwrap();
+        let rpath = out.join(format!("replay_{}.json", cfg.seed));
+        let mut rp = serde_json::to_value(&outcome.replay).unwrap();
+        rp["driver"] = json!("corrupt");
+        std::fs::write(&rpath, serde_json::to_string(&rp).unwrap()).unwrap();
+        let mut r = serde_json::to_value(&outcome.result).unwrap();
+        r["trace"] = json!(path.to_string_lossy());
+        r["replay"] = json!(rpath.to_string_lossy());
+        r["cfg"] = serde_json::to_value(&cfg).unwrap();
+        r["corrupt"] = stats;
+        results.push(r);
+    }
+    std::fs::write(
+        out.join("results.json"),
+        serde_json::to_string_pretty(&json!({"runs": results, "aborted": false})).unwrap(),
+    )
+    .unwrap();
+    0
+}
+
 fn cmd_fault(m: &HashMap<String, String>) -> i32 {
     let out = PathBuf::from(m.get("out").cloned().unwrap_or_else(|| "out/fault".into()));
     std::fs::create_dir_all(&out).unwrap();
@@ -380,6 +438,7 @@ fn main() {
         "hist" => cmd_hist(&m),
         "crash" => cmd_crash(&m),
         "fault" => cmd_fault(&m),
+        "corrupt" => cmd_corrupt(&m),
         "sched" => sched::cmd(&m),
         "live" => sched::cmd_live(&m),
         "logfmt" => logfmt::cmd(&m),
